@@ -50,6 +50,68 @@ def guard_summary(guards):
     return [(g[1], (g[2].get("op") or g[2].get("callee") or g[2]["kind"])) for g in guards]
 
 
+def same_output_rule(rep, F):
+    # SAME-output: the output whose minimum ADA is tested is the output that is stored
+    rep.rule("SAME-output", "in both collateral setters the argument of min_ada_for_output and the value stored as collateral_return are the same output object (same constructor call, or both the caller's argument): testing a rebuilt copy (address + amount only) ignores a datum or reference script that the stored output carries")
+    n_so = 0
+    for nm_ in ("TransactionBuilder::set_collateral_return_and_total", "TransactionBuilder::set_total_collateral_and_return"):
+        fid_ = find_fn(rep, F, nm_)
+        if not fid_:
+            continue
+        fn_ = F.fns[fid_]
+        org_ = ff.Origins(F, fid_)
+        mc_ = [c for c in F.calls(fid_) if (c.to or "").endswith("min_ada_for_output")]
+        st_bbs = [(bi, how) for bi, how in stores_of(F, fid_, "collateral_return") if how != "clear"]
+        o1 = None
+        if not mc_:
+            # one level of wrapper: a helper of the crate that returns min_ada_for_output(..) of an output it is given or builds
+            deep_ = mp.call_origin_deep(F, "min_ada_for_output")
+            for hc in F.calls(fid_):
+                h = hc.to or ""
+                if h not in F.fns or "{closure" in h or not deep_("call:%s@0" % h):
+                    continue
+                horg = ff.Origins(F, h)
+                hm = [c for c in F.calls(h) if (c.to or "").endswith("min_ada_for_output")]
+                if not hm:
+                    continue
+                oh = horg.of_operand(F.fns[h]["bbs"][hm[0].bb]["t"][3][0])
+                if any(x.startswith("call:") and x.split("@")[0].endswith("TransactionOutput::new") for x in oh):
+                    o1 = {"call:(rebuilt inside %s) TransactionOutput::new@0" % F.key(h)}
+                else:
+                    o1 = set()
+                    for x in oh:
+                        if x.startswith("arg:"):
+                            i_ = int(x[4:]) - 1
+                            ops_ = fn_["bbs"][hc.bb]["t"][3]
+                            if 0 <= i_ < len(ops_):
+                                o1 |= org_.of_operand(ops_[i_])
+                break
+        if (not mc_ and o1 is None) or not st_bbs:
+            rep.lost("%s: min_ada_for_output call / collateral_return store not found" % nm_)
+            continue
+        n_so += 1
+        rep.inst("SAME-output")
+        if o1 is None:
+            o1 = org_.of_operand(fn_["bbs"][mc_[0].bb]["t"][3][0])
+        o2 = set()
+        ffs_ = ff.FnFields(F, fid_)
+        for s_ in ffs_.stores_to(TB, "collateral_return"):
+            if isinstance(s_[4], list):
+                import p_c04 as _p4
+                o2 |= _p4._origins_any(org_, s_[4])
+        for c in F.calls(fid_):
+            if (c.to or "").endswith("TransactionBuilder::set_collateral_return"):
+                o2 |= org_.of_operand(fn_["bbs"][c.bb]["t"][3][1])
+        ctor1 = {x for x in o1 if x.startswith("call:") and x.split("@")[0].endswith("TransactionOutput::new")}
+        ctor2 = {x for x in o2 if x.startswith("call:") and x.split("@")[0].endswith("TransactionOutput::new")}
+        rebuilt_plain = any("(rebuilt inside" in x for x in ctor1)
+        if rebuilt_plain and ctor2:
+            continue  # priced copy and stored output are both plain TransactionOutput::new(address, amount) values
+        if ctor1 != ctor2:
+            rep.violation("SAME-output", nm_.rsplit("::", 1)[-1], "%s tests the minimum ADA of an output built by %s but stores an output built by %s: a return output carrying a datum hash with 1 043 020 lovelace passes the test of its bare copy (minimum 969 750) and is stored although its own minimum is 1 116 290" % (nm_.rsplit("::", 1)[-1], sorted(x.split("@")[0][5:].rsplit("::", 2)[-2] + "::new" for x in ctor1) or "the caller", sorted(x.split("@")[0][5:].rsplit("::", 2)[-2] + "::new" for x in ctor2) or "the caller"), {})
+    rep.floor("collateral setters testing min ADA", 2, n_so)
+
+
 def check(rep, F, tier, replay=None):
     rep.rule("GATE", "collateral fields are stored only behind the audited comparisons")
     # ---- set_collateral_return_and_total --------------------------------------------------------
@@ -66,8 +128,8 @@ def check(rep, F, tier, replay=None):
                 asset_free = any(d["kind"] == "call" and d["callee"].endswith("Option::<T>::is_some") and edge == "0" and has_origin(d["args"][0], call_origin("Value::checked_sub")) or
                                  (d["kind"] == "call" and d["callee"].endswith("Option::<T>::is_none") and edge != "0" and has_origin(d["args"][0], call_origin("Value::checked_sub"))) for s, edge, d in gs)
                 min_ada = any(d["kind"] == "call" and "PartialOrd" in d["callee"] and (
-                    (d["callee"].endswith("::gt") and edge == "0" and has_origin(d["args"][0], call_origin("min_ada_for_output")) and has_origin(d["args"][1], field_origin("utils::Value", "coin"))) or
-                    (d["callee"].endswith("::lt") and edge == "0" and has_origin(d["args"][1], call_origin("min_ada_for_output")) and has_origin(d["args"][0], field_origin("utils::Value", "coin")))) for s, edge, d in gs)
+                    (d["callee"].endswith("::gt") and edge == "0" and has_origin(d["args"][0], mp.call_origin_deep(F, "min_ada_for_output")) and has_origin(d["args"][1], field_origin("utils::Value", "coin"))) or
+                    (d["callee"].endswith("::lt") and edge == "0" and has_origin(d["args"][1], mp.call_origin_deep(F, "min_ada_for_output")) and has_origin(d["args"][0], field_origin("utils::Value", "coin")))) for s, edge, d in gs)
                 non_empty = any(d["kind"] == "bin" and d["op"] == "Eq" and edge == "0" and has_origin(d["lhs"], call_origin("TxInputsBuilder::len")) for s, edge, d in gs)
                 for ok, what in ((asset_free, "asset-free test of (collateral inputs - return)"), (min_ada, "min-ADA comparison of the return output"), (non_empty, "collateral inputs present")):
                     rep.inst("GATE")
@@ -108,7 +170,7 @@ def check(rep, F, tier, replay=None):
                 continue
             gs = mp.dominating_guards(F, fid, bi)
             enough = any(d["kind"] == "call" and d["callee"].endswith("PartialOrd::lt") and edge == "0" and has_origin(d["args"][0], call_origin("TxInputsBuilder::total_value")) and "arg:2" in d["args"][1] for s, edge, d in gs)
-            min_ada = any(d["kind"] == "call" and "PartialOrd" in d["callee"] and d["callee"].endswith("::gt") and edge == "0" and has_origin(d["args"][0], call_origin("min_ada_for_output")) and has_origin(d["args"][1], call_origin("Value::checked_sub")) for s, edge, d in gs)
+            min_ada = any(d["kind"] == "call" and "PartialOrd" in d["callee"] and d["callee"].endswith("::gt") and edge == "0" and has_origin(d["args"][0], mp.call_origin_deep(F, "min_ada_for_output")) and has_origin(d["args"][1], call_origin("Value::checked_sub")) for s, edge, d in gs)
             reads = set()
             cds = [(s, None, mp.describe_cond(F, fid, s, org)) for s in mp.control_deps(F, fid, bi)]
             for s, edge, d in cds:
@@ -243,37 +305,7 @@ def check(rep, F, tier, replay=None):
             rep.violation("REGISTER-last", "TxInputsBuilder::push_input|%s" % ",".join(keeps_first), "push_input keeps an existing registration (%s) instead of replacing it: an outpoint added again with its actual value keeps the stale first amount, and collateral return + total no longer equal the collateral inputs" % ", ".join(keeps_first), {})
         elif not any(t.endswith("BTreeMap::<K, V, A>::insert") for t in tos):
             rep.lost("TxInputsBuilder::push_input no longer stores through BTreeMap::insert (re-anchor REGISTER-last)")
-    # SAME-output: the output whose minimum ADA is tested is the output that is stored
-    rep.rule("SAME-output", "in both collateral setters the argument of min_ada_for_output and the value stored as collateral_return are the same output object (same constructor call, or both the caller's argument): testing a rebuilt copy (address + amount only) ignores a datum or reference script that the stored output carries")
-    n_so = 0
-    for nm_ in ("TransactionBuilder::set_collateral_return_and_total", "TransactionBuilder::set_total_collateral_and_return"):
-        fid_ = find_fn(rep, F, nm_)
-        if not fid_:
-            continue
-        fn_ = F.fns[fid_]
-        org_ = ff.Origins(F, fid_)
-        mc_ = [c for c in F.calls(fid_) if (c.to or "").endswith("min_ada_for_output")]
-        st_bbs = [(bi, how) for bi, how in stores_of(F, fid_, "collateral_return") if how != "clear"]
-        if not mc_ or not st_bbs:
-            rep.lost("%s: min_ada_for_output call / collateral_return store not found" % nm_)
-            continue
-        n_so += 1
-        rep.inst("SAME-output")
-        o1 = org_.of_operand(fn_["bbs"][mc_[0].bb]["t"][3][0])
-        o2 = set()
-        ffs_ = ff.FnFields(F, fid_)
-        for s_ in ffs_.stores_to(TB, "collateral_return"):
-            if isinstance(s_[4], list):
-                import p_c04 as _p4
-                o2 |= _p4._origins_any(org_, s_[4])
-        for c in F.calls(fid_):
-            if (c.to or "").endswith("TransactionBuilder::set_collateral_return"):
-                o2 |= org_.of_operand(fn_["bbs"][c.bb]["t"][3][1])
-        ctor1 = {x for x in o1 if x.startswith("call:") and x.split("@")[0].endswith("TransactionOutput::new")}
-        ctor2 = {x for x in o2 if x.startswith("call:") and x.split("@")[0].endswith("TransactionOutput::new")}
-        if ctor1 != ctor2:
-            rep.violation("SAME-output", nm_.rsplit("::", 1)[-1], "%s tests the minimum ADA of an output built by %s but stores an output built by %s: a return output carrying a datum hash with 1 043 020 lovelace passes the test of its bare copy (minimum 969 750) and is stored although its own minimum is 1 116 290" % (nm_.rsplit("::", 1)[-1], sorted(x.split("@")[0][5:].rsplit("::", 2)[-2] + "::new" for x in ctor1) or "the caller", sorted(x.split("@")[0][5:].rsplit("::", 2)[-2] + "::new" for x in ctor2) or "the caller"), {})
-    rep.floor("collateral setters testing min ADA", 2, n_so)
+    same_output_rule(rep, F)
     # CO-return: return and total are written together
     rep.rule("CO-return", "every function that computes a collateral return (stores Some(output) into collateral_return) and sets the total collateral writes collateral_return on every path to its success return - Some(output) or None: a return left by an earlier call never stays next to a new total")
     from collections import deque as _dq
